@@ -7,6 +7,9 @@ def parse_run(profile, mask, nq, nt, extra=None):
 def dispatch_run(profile, mask, dmask, nq, nt, extra=None):
     return dict(kind="dispatch", profile=profile, mask=mask, dmask=dmask, n_quick=nq, n_thorough=nt, extra=extra or [])
 
+def build_run(nq, nt, profile="build"):
+    return dict(kind="build", profile=profile, mask="1111111", n_quick=nq, n_thorough=nt, extra=[])
+
 def tok_run(nq_rand, nt_rand, lq=3, lt=5):
     return dict(kind="tok", profile="tok", mask="1111111", n_quick=nq_rand, n_thorough=nt_rand, shards=1,
                 extra=["-len", str(lq)], extra_thorough=["-len", str(lt)])
@@ -48,15 +51,27 @@ PROPS = {
         rule="unknown long/short/bundled options with and without attached values planted before/after command tokens and in wrapper commands, 3 unknown modes x 3 single-dash modes; non-trivial = an unknown option was reported, warned about or passed through",
     ),
     "C10": dict(
-        runs=[dispatch_run("dispatch", "1001110", "111000", 4000, 200000)],
+        runs=[dispatch_run("dispatch", "1001110", "111000", 4000, 200000), build_run(3000, 100000)],
         coq_sample=8,
         rule="command trees of depth <= 3 with inherited options, UnsetOptions wrappers and commands without function; Parse then Dispatch with instrumented functions; non-trivial = the tree has commands and exactly one function ran",
         assumptions=["'exactly one function exactly once' is by the result type in the model; on the real library the harness counts invocations and checks the context value"],
     ),
     "C11": dict(
-        runs=[dispatch_run("dispatch", "1100000", "100110", 4000, 200000)],
+        runs=[dispatch_run("dispatch", "1100000", "100110", 4000, 200000), build_run(3000, 100000)],
         coq_sample=8,
         rule="trees with required options (own/inherited, with/without custom message) and help option/command at every level; non-trivial = a required option was missing or help was requested",
+    ),
+    "C18": dict(
+        runs=[dispatch_run("help", "0000000", "000011", 3000, 100000), dispatch_run("dispatch", "0000000", "000011", 2000, 100000)],
+        coq_sample=8,
+        rule="levels with up to 8 options over all 12 kinds, 0-3 aliases, required / env / multi-line descriptions / argument declarations / commands; the exact bytes of Help() and of the help written by Dispatch are compared with the model's rendering; non-trivial = Parse succeeded and the tree has >= 4 option objects",
+        trusted_extra=["DefaultStr of numeric defaults (fmt %d %f %t) and HelpArgName are taken from the dump, not recomputed"],
+    ),
+    "C12": dict(
+        runs=[build_run(4000, 150000, "env"), parse_run("env", "1000110", 4000, 150000)],
+        coq_sample=10,
+        rule="bool/string/int/float (plain and optional) options bound to environment variables x variable texts {valid, invalid, empty, unset, mixed case} x option present/absent on the command line; the definition is executed with the process environment set and the resulting option objects are compared with the model's builder, then Parse is compared; non-trivial = an option is bound to a set variable",
+        trusted_extra=["the process environment is set by the harness around the definition (os.Setenv), the model gets the same table"],
     ),
     "C09": dict(
         runs=[parse_run("order", "0001110", 4000, 200000)],
